@@ -17,6 +17,7 @@ CONFIG = {
     "C20": dict(gen=["Registry"], drivers=["Registry"]),
     "C11": dict(gen=["Models"], drivers=["ModelsF", "SpreadPoint"], extra_prop_files=["PgVerif/Tie/Models.lean"]),
     "C12": dict(gen=["Models"], drivers=["Fit"]),
+    "C13": dict(gen=["Models"], drivers=["Iast"]),
     "C14": dict(gen=["Char"], drivers=["Char"]),
     "C16": dict(gen=["Char"], drivers=["Char"]),
     "C19": dict(gen=["Char", "Models"], drivers=["Char"]),
